@@ -67,6 +67,26 @@ RECV = {"A": "step(A());", "B": "step(B());", "C": "step(C());", "C2": "step(C2(
 ALPHA = ["A", "B", "C", "C2", "D", "N", "T1", "T2", "GC", "FA", "FFA", "cA", "cB", "FFB", "FB", "S", "L"]
 
 
+# ---- two modules: every module has its own cache and numbers its sites from 0; a super call from one module into a method written in the other,
+# call sites in both modules reached by instances of the base class and of subclasses declared in the other module
+XM_BASE = ("export class Shape { init(label) { self.label = label; self.extra = 'x'; } area() { return 0; } describe() { return 'shape ' + self.label; } name() { return 'Shape'; } }\n"
+           "export fn areaOf(s) { return s.area(); }\nexport fn descOf(s) { return s.describe(); }\nexport fn labelOf(s) { return s.label; }\nexport fn nameOf(s) { return s.name(); }\n")
+XM_MAIN = ("import self.base:{Shape, areaOf, descOf, labelOf, nameOf};\n"
+           "class Square : Shape { init(side) { super.init('square'); self.side = side; } area() { return self.side * self.side; } describe() { return 'a ' + super.describe(); } name() { return 'Square<' + super.name() + '>'; } }\n"
+           "class Circle : Shape { init() { self.r = 2; super.init('circle'); } }\n"
+           "class Deep : Square { init() { super.init(3); } describe() { return 'deep ' + super.describe(); } }\n"
+           "fn mainArea(s) { return s.area(); }\nfn mainDesc(s) { return s.describe(); }\nfn mainLabel(s) { return s.label; }\n"
+           "fn show(tag, f, o) { try { print(tag, f(o)); } catch e { print(tag + '!', e.cls().name()); } }\n")
+XM_FUNS = ["areaOf", "descOf", "labelOf", "nameOf", "mainArea", "mainDesc", "mainLabel"]
+XM_RECV = [("plain", "Shape('plain')"), ("square", "Square(3)"), ("circle", "Circle()"), ("deep", "Deep()")]
+XM_OPS = [(f, r) for f in XM_FUNS for r in range(len(XM_RECV))]
+
+
+def xm_files(hist):
+    body = "".join("show('%s/%s', %s, %s);\n" % (f, XM_RECV[r][0], f, XM_RECV[r][1]) for f, r in hist)
+    return {"/v/main.lay": XM_MAIN + body, "/v/base.lay": XM_BASE}
+
+
 def prog(hist, sites="all"):
     body = []
     for k, h in enumerate(hist):
@@ -84,7 +104,7 @@ class C13(Check):
     level = "exploration"
     rule = ("(hist) all receiver histories of length 1..L (L=4 quick, 6 thorough) over a 17 symbol alphabet (13 for length 4, 11 beyond), visiting all sites, and for length <= 3 (4 thorough) also only the invoke / only the property / only the get-then-call sites, each run with caches "
             "on and with hook H4 forcing every lookup to miss; oracle: equal output, and every step equals the output of that "
-            "receiver at a fresh site; (corpus) every corpus program on/off. non-trivial = history with >= 2 different receiver "
+            "receiver at a fresh site; (xmod) two modules with caches of their own: all call histories <= 3 (4 thorough) over 7 call sites in both modules x 4 receivers (base class, subclasses declared in the other module, super calls across the module boundary); (corpus) every corpus program on/off. non-trivial = history with >= 2 different receiver "
             "classes at the site (or a corpus program containing a property/invoke site)")
     assumptions = ["history runs use the harness allocator's eager-reuse modes (exact size classes, FIFO and LIFO hand-out order), so a freed "
                    "class block is deterministically re-used by a later class; other reuse orders are not explored"]
@@ -102,13 +122,22 @@ class C13(Check):
                 if n <= (4 if tier == "thorough" else 3):
                     for st in SITES[1:]:
                         yield ("hist", h, st)
+        for n in range(1, (4 if tier == "thorough" else 3) + 1):
+            ops = XM_OPS if n <= 2 else [o for o in XM_OPS if o[0] in ("areaOf", "descOf", "nameOf", "mainDesc")]
+            for h in itertools.product(ops, repeat=n):
+                yield ("xmod", h)
         for i in range(len(self.progs)):
             yield ("corpus", i)
 
     def describe(self, spec):
+        if spec[0] == "xmod":
+            return "two modules: " + " ".join("%s(%s)" % (f, XM_RECV[r][0]) for f, r in spec[1])
         return ("hist " + " ".join(spec[1]) + (" (sites: %s)" % spec[2] if len(spec) > 2 else "")) if spec[0] == "hist" else "corpus " + self.progs[spec[1]][0]
 
     def build(self, spec):
+        if spec[0] == "xmod":
+            files = xm_files(spec[1])
+            return [{"files": files, "entry": "/v/main.lay", "step_limit": 2000000}, {"files": files, "entry": "/v/main.lay", "cache_off": True, "step_limit": 2000000}], None
         if spec[0] == "hist":
             src = prog(spec[1], spec[2] if len(spec) > 2 else "all")
             return [{"src": src, "step_limit": 2000000, "alloc": "reuse_fifo"}, {"src": src, "cache_off": True, "step_limit": 2000000, "alloc": "reuse_fifo"},
@@ -124,6 +153,11 @@ class C13(Check):
             return Verdict(False, True, "on!=off", "caches on and off differ: on class=%s out=%r err=%r | off class=%s out=%r err=%r %s" % (
                 on.get("class"), on.get("out", "")[-300:], on.get("err", "")[-200:], off.get("class"), off.get("out", "")[-300:], off.get("err", "")[-200:],
                 on.get("panic") or on.get("signal") or ""))
+        if spec[0] == "xmod":
+            exp = "".join(self.single[("xmod", o)] for o in spec[1])
+            if on.get("class") != "ok" or on.get("out") != exp:
+                return Verdict(False, True, "history-dependent", "output depends on the call history: expected %r got class=%s %r %s" % (exp[-400:], on.get("class"), on.get("out", "")[-400:], on.get("panic") or ""))
+            return Verdict(True, len(set(spec[1])) >= 2, "ok")
         if spec[0] == "hist":
             exp = "".join(self.single[(spec[2] if len(spec) > 2 else "all", h)] for h in spec[1])
             if on.get("class") != "ok" or on.get("out") != exp:
@@ -146,6 +180,12 @@ def main(tier):
             print("MACHINERY: single receiver program for %s did not run: %s %s" % (k, r.get("class"), r.get("err", "")[:300]))
             return 2
         single[k] = r["out"]
+    xs = map_cases([{"files": xm_files((o,)), "entry": "/v/main.lay", "cache_off": True, "step_limit": 2000000} for o in XM_OPS])
+    for o, r in zip(XM_OPS, xs):
+        if r.get("class") != "ok":
+            print("MACHINERY: two-module single call program for %s did not run: %s %s" % (o, r.get("class"), r.get("err", "")[:300]))
+            return 2
+        single[("xmod", o)] = r["out"]
     progs = corpus.rich() + corpus.fixtures()
     try:
         from vlib import spaces
@@ -154,4 +194,4 @@ def main(tier):
         pass
     chk = C13(single, progs)
     merged = explore(chk, tier, cap_s=(1500 if tier == "thorough" else 200))
-    return report.finish(chk, tier, merged, t0, coverage_extra={"single_receiver_outputs": {"%s/%s" % k: v for k, v in single.items()}})
+    return report.finish(chk, tier, merged, t0, coverage_extra={"single_receiver_outputs": {"%s/%s" % (k[0], k[1]): v for k, v in single.items()}})
